@@ -11,7 +11,9 @@ NOT_DECIDED = 'interleavings and equality of per-thread results (schedules are r
 ARTIFACT_FILES = ('jsoncons_ext/jsonschema/', 'jsoncons_ext/jsonpath/', 'jsoncons_ext/jmespath/',
                   'jsoncons/basic_json.hpp', 'jsoncons/json_array.hpp', 'jsoncons/sorted_json_object.hpp', 'jsoncons/ordered_json_object.hpp',
                   'jsoncons/key_value.hpp', 'jsoncons/utility/heap_string.hpp', 'jsoncons/utility/uri.hpp', 'jsoncons/utility/byte_string.hpp',
-                  'jsoncons/json_type.hpp', 'jsoncons/semantic_tag.hpp', 'jsoncons/utility/bigint.hpp')
+                  'jsoncons/json_type.hpp', 'jsoncons/semantic_tag.hpp', 'jsoncons/utility/bigint.hpp',
+                  # number and text conversion helpers that evaluation (to_string, number comparison, regex keys) runs through
+                  'jsoncons/utility/write_number.hpp', 'jsoncons/utility/read_number.hpp', 'jsoncons/detail/grisu3.hpp', 'jsoncons/utility/unicode_traits.hpp')
 
 MUTABLE_OK = {
     # (class without template args, field): reason
@@ -94,9 +96,10 @@ def run(chk, tier, only_rule=None):
             chk.ok('R20.2', site, None, nontrivial=False)
     chk.require(ctl_cc, 'R20.2 positive control (const_cast in drivers/control.cpp) not detected')
     # ---- R20.3
-    fn_by_q = {}
+    fn_by_q = {}; fns_by_q = {}
     for fn in facts.functions:
         fn_by_q.setdefault(fn['q'], fn)
+        fns_by_q.setdefault(fn['q'], []).append(fn)
     callers_of_null = []
     ctl_static = False
     vseen = set()
@@ -175,7 +178,11 @@ def run(chk, tier, only_rule=None):
         if not v.get('local') or v.get('const') or not v.get('fn'): continue
         ctl = v['file'].startswith('drivers/control.cpp')
         if not ctl and not in_artifact(v['file']): continue
-        f = fn_by_q.get(v['fn'])
+        # the function (overload, instantiation) that actually declares this static
+        f = None
+        for cand in fns_by_q.get(v['fn'], []):
+            if cand.get('body') is not None and any(d.get('k') == 'VarDecl' and d.get('id') == v['id'] for d in A.walk(cand['body'])): f = cand; break
+        if f is None: f = fn_by_q.get(v['fn'])
         if f is None or f.get('body') is None: continue
         site = '%s %s static %s' % (v['file'], A.strip_targs(v['fn']).replace('jsoncons::', ''), v['n'])
         if site in wseen: continue
@@ -194,6 +201,10 @@ def run(chk, tier, only_rule=None):
                 # uninstantiated pattern: member call through a dependent member expression
                 ce = A.strip(x['callee'], casts=True)
                 if ce is not None and ce.get('n') in WRITERS and is_v(ce.get('base')): wr = (x, 'modified by %s()' % ce.get('n'))
+            elif k in A.CALLS and x.get('cid') not in fn_by_id and any(is_v(a) for a in x.get('args') or []):
+                # a callee outside the unit (snprintf, memcpy ...): the static is written if it is passed as a pointer to non-const
+                for a in x.get('args') or []:
+                    if is_v(a) and a.get('t') and is_nonconst_ref_or_ptr(F.tname(f, a['t'])): wr = (x, 'passed as `%s` to %s' % (F.tname(f, a['t'])[:30], A.callee_name(x)))
             elif k in A.CALLS and x.get('cid') in fn_by_id:
                 cal = fn_by_id[x['cid']]
                 for p_, a in zip(cal.get('params') or [], x.get('args') or []):
